@@ -29,6 +29,10 @@ use std::{
     ptr,
 };
 
+#[cfg(feature = "verif")]
+#[path = "vm_verif.rs"]
+pub mod vm_verif;
+
 pub type AbraInt = i64;
 pub type AbraFloat = f64;
 
@@ -1042,6 +1046,8 @@ impl Display for ExpectedType {
 
 impl Value {
     fn check_type(&self, _vm: &VmGreenThread, tag: ValueTag) {
+        #[cfg(feature = "verif")]
+        vm_verif::check_live(self);
         if cfg!(debug_assertions) && self.1 != tag {
             _vm.fail(VmErrorKind::WrongType(tag.to_expected_type(), self.1));
         }
@@ -1242,10 +1248,16 @@ struct ObjectHeader {
     kind: ObjectKind,
     visited: bool,
     no_gc: bool,
+    #[cfg(feature = "verif")]
+    verif: vm_verif::HeaderExtra,
 }
 
 impl ObjectHeader {
     unsafe fn dealloc(&mut self, heap_size: &mut usize) {
+        #[cfg(feature = "verif")]
+        if vm_verif::quarantine_instead_of_free(self, heap_size) {
+            return;
+        }
         let kind = self.kind;
         match kind {
             ObjectKind::String => {
@@ -1351,6 +1363,8 @@ impl StructObject {
                             GcState::Marking | GcState::Sweeping { .. } => true,
                         },
                         no_gc: false,
+            #[cfg(feature = "verif")]
+            verif: vm_verif::HeaderExtra::new(),
                     },
                     len,
                 },
@@ -1425,6 +1439,8 @@ impl ArrayObject {
                 GcState::Marking | GcState::Sweeping { .. } => true,
             },
             no_gc: false,
+            #[cfg(feature = "verif")]
+            verif: vm_verif::HeaderExtra::new(),
         };
         let b = Box::new(ArrayObject { header, data });
         let arr = Box::leak(b);
@@ -1473,6 +1489,8 @@ impl ChannelObject {
                 GcState::Marking | GcState::Sweeping { .. } => true,
             },
             no_gc: false,
+            #[cfg(feature = "verif")]
+            verif: vm_verif::HeaderExtra::new(),
         };
         let b = Box::new(ChannelObject { header, data });
         let chan = Box::leak(b);
@@ -1530,6 +1548,8 @@ impl EnumObject {
                 GcState::Marking | GcState::Sweeping { .. } => true,
             },
             no_gc: false,
+            #[cfg(feature = "verif")]
+            verif: vm_verif::HeaderExtra::new(),
         };
         let b = Box::new(EnumObject { header, tag, val });
         let variant = Box::leak(b);
@@ -1566,6 +1586,8 @@ impl StringObject {
                 GcState::Marking | GcState::Sweeping { .. } => true,
             },
             no_gc: false,
+            #[cfg(feature = "verif")]
+            verif: vm_verif::HeaderExtra::new(),
         };
         let b = Box::new(StringObject { header, str });
         let str = Box::leak(b);
@@ -1587,6 +1609,8 @@ impl StringObject {
             kind: ObjectKind::String,
             visited: false,
             no_gc: true,
+            #[cfg(feature = "verif")]
+            verif: vm_verif::HeaderExtra::new(),
         };
         let b = Box::new(StringObject { header, str });
         let str = Box::leak(b);
@@ -2519,6 +2543,10 @@ impl VmGreenThread {
     // GARBAGE COLLECTION
 
     pub fn maybe_gc(&mut self) {
+        #[cfg(feature = "verif")]
+        if crate::verif::gc_manual() {
+            return;
+        }
         match self.gc_state {
             GcState::Idle => {
                 let threshold = self.last_gc_heap_size * GC_PAUSE_FACTOR;
